@@ -458,6 +458,22 @@ def o_C01(I):
 def o_C02(I):
     out = []
     ev = I.events
+    ks = [e['kind'] for e in ev]
+    if not any(k in ('hold', 'drop', 'dropctx', 'dropfut', 'eof', 'panic', 'markdisc') for k in ks) and ks.count('setup') <= 1 \
+            and not any(e['kind'] == 'ret' and e['call'] == 'run' for e in ev):
+        # every accepted PUBLISH that names a taken stream is handed to it ("the client accepts the packet")
+        exp = expected_items(I)
+        taken = {int(e['toks'][0]) for e in ev if e['kind'] == 'stream'}
+        got = {}
+        for e in ev:
+            if e['kind'] == 'item':
+                got.setdefault(e['st'], []).append(e['text'])
+        for st in taken:
+            want = [v for sg, v in exp.get(st, [])]
+            if got.get(st, []) != want:
+                k = next((i for i, (a, b) in enumerate(zip(got.get(st, []), want)) if a != b), min(len(got.get(st, [])), len(want)))
+                out.append((I.name, exp[st][k][0] if k < len(want) else 0,
+                            f'st{st}: message {k} fed to the client was not handed to its stream as encoded (got {len(got.get(st, []))} of {len(want)} messages)'))
     for n, e in enumerate(ev):
         if e['kind'] != 'in' or e['pkt'] is None:
             continue
@@ -564,6 +580,8 @@ def completion_check(I, strict_pending=True):
         if op.kind == 'PUBLISH' and op.qos == 0 or op.kind == 'DISCONNECT':
             if txt != 'ok':
                 out.append((I.name, e['seg'], f'op{op.id} fire-and-forget completed with `{txt}`'))
+            elif not op.w:
+                out.append((I.name, e['seg'], f'op{op.id} ({op.kind}) reported success but its packet was never written'))
             continue
         if op.kind == 'PING':
             uncertain = any(o.kind == 'PING' and o.dropped is not None and (not o.w or o.w[0][0] > o.dropped) for o in I.ops.values())
@@ -582,6 +600,43 @@ def completion_check(I, strict_pending=True):
                 ok = True
         if not ok:
             out.append((I.name, e['seg'], f"op{op.id} ({op.kind} pid {op.pid}) completed with `{txt}` but no acknowledgement addressed to it says so (fed: {[(k, p['reason'] if 'reason' in p else None) for s, k, p in mine]})"))
+    out += completion_liveness(I)
+    return out
+
+
+def completion_liveness(I):
+    """the other half: an operation whose final acknowledgement HAS been fed to a serving, never held run() is complete at
+    the end of the script. Only judged on scripts without HOLD / DROPCTX / DROPFUT / transport faults / a second SETUP,
+    and only while run() has not returned."""
+    out = []
+    ks = [e['kind'] for e in I.events]
+    if any(k in ('hold', 'dropctx', 'dropfut', 'eof', 'panic', 'markdisc') for k in ks) or ks.count('setup') > 1:
+        return out
+    if any(e['kind'] == 'ret' and e['call'] == 'run' for e in I.events) or 'werr' in I.cfg or 'wzero' in I.cfg:
+        return out
+    last = {}
+    npingresp = 0
+    for e in I.events:
+        if e['kind'] == 'in' and e['pkt'] is not None and e['ctx'] == 'run':
+            p = e['pkt']
+            if p['type'] == 13:
+                npingresp += 1
+            elif p['type'] in (4, 7, 9, 11) or (p['type'] == 5 and p['reason'] >= 0x80):
+                last[(p['type'], p['pid'])] = e['seg']
+    pings = [op for op in I.ops.values() if op.kind == 'PING' and op.w]
+    pings.sort(key=lambda o: o.w[0][0])
+    for op in pings[:npingresp]:
+        if op.done is None and op.dropped is None:
+            out.append((I.name, op.seg, f'op{op.id}: its PINGRESP was fed but the ping never completed'))
+    for op in I.ops.values():
+        if op.done is not None or op.dropped is not None or op.pid is None or not op.w:
+            continue
+        kinds = {'PUBLISH': [4] if op.qos == 1 else [7, 5], 'SUBSCRIBE': [9], 'UNSUBSCRIBE': [11]}.get(op.kind, [])
+        for t in kinds:
+            sg = last.get((t, op.pid))
+            if sg is not None and sg >= op.w[0][0]:
+                out.append((I.name, sg, f'op{op.id} ({op.kind} pid {op.pid}): its acknowledgement (type {t}) was fed at segment {sg} but the operation never completed'))
+                break
     return out
 
 
@@ -616,10 +671,16 @@ def o_C06(I):
                 out.append((I.name, s, f'op{op.id}: first PUBLISH carries DUP=1'))
             if op.qos == 0 and op.done is not None and (op.done[0] != s or op.done[1] != 'ok') and 'ctx' not in [x.get('task') for x in I.events if x['kind'] == 'hold']:
                 out.append((I.name, s, f'op{op.id}: QoS 0 publish did not complete when written: {op.done}'))
+        if pubs and op.done is not None and op.done[1] in ('err QuotaExceeded', 'err MaximumPacketSizeExceeded'):
+            out.append((I.name, op.done[0], f'op{op.id}: `{op.done[1]}` reported for a publish whose PUBLISH is on the wire'))
         if op.qos == 2 and pubs:
             recs = [x for x in fed.get(('pubrec', op.pid), []) if x[0] >= pubs[0][0]]
             okrec = [x for x in recs if x[1]['reason'] < 0x80]
             badrec = [x for x in recs if x[1]['reason'] >= 0x80]
+            if (okrec and not rels and op.done is not None and op.dropped is None and (not badrec or okrec[0][0] < badrec[0][0])
+                    and op.done[0] >= okrec[0][0] and op.done[1] not in ('err ContextExited', 'err SocketClosed')
+                    and not any(e['kind'] in ('ret', 'dropctx', 'dropfut') and e['seg'] <= op.done[0] and e['seg'] >= okrec[0][0] for e in I.events)):
+                out.append((I.name, op.done[0], f'op{op.id}: completed with `{op.done[1]}` after a successful PUBREC without ever sending PUBREL'))
             if len(rels) > 1:
                 out.append((I.name, op.seg, f'op{op.id}: {len(rels)} PUBREL packets'))
             for s, pk in rels:
@@ -743,7 +804,9 @@ def o_C08(I):
     elif len(a) < len(b):
         # missing acknowledgements are acceptable only after run() ended
         s = owed[len(a)][2]
-        ended = [e['seg'] for e in I.events if e['kind'] in ('ret', 'dropctx', 'dropfut', 'panic') and e['seg'] <= s]
+        # the packet was fed to a live, not held run(): its acknowledgement is due within the same script step, unless an
+        # earlier packet of the same read ended run() in that step
+        ended = [e['seg'] for e in I.events if e['kind'] in ('ret', 'panic') and e['seg'] == s]
         if not ended:
             out.append((I.name, s, f'{b[len(a)]} owed for the packet fed here was never written'))
     return out
@@ -957,7 +1020,7 @@ def o_C13(I):
 
 
 def o_C14(I):
-    out = []
+    out = [x for x in completion_check(I) if 'was never written' in x[2]]
     d = [n for n, e in enumerate(I.events) if e['kind'] == 'dropctx']
     if not d:
         return out
@@ -1000,7 +1063,7 @@ def o_C14(I):
 def o_C15(I):
     """cancellation: run() returns only for a C13 cause, the others complete properly, quota accounting stays exact.
     K1 (known finding): a QoS 2 publish dropped before it sent PUBREL leaves its exchange (and slot) unfinished."""
-    out = o_C13(I) + completion_check(I) + o_C10(I)
+    out = o_C13(I) + completion_check(I) + o_C10(I) + o_C07(I, check_end=False)
     # a cancelled QoS 2 publish: either it never got to queue its PUBREL (K1, known finding), or it did — then the
     # PUBREL must still be written, otherwise the exchange (and its flow-control slot) is lost
     for op in I.ops.values():
